@@ -100,6 +100,7 @@ package stanza
 // types: each decodes to itself (anything else is read as normal). IQType
 // serialises to itself unless it is empty.
 //@ func (*MessageType).UnmarshalXMLAttr
+//@   modifies t
 //@   ensures[C13] result == nil
 //@   ensures[C13] (attr.Value == "normal" || attr.Value == "chat" || attr.Value == "error" || attr.Value == "groupchat" || attr.Value == "headline") ==> string(*t) == attr.Value
 //@   ensures[C13] !(attr.Value == "normal" || attr.Value == "chat" || attr.Value == "error" || attr.Value == "groupchat" || attr.Value == "headline") ==> *t == "normal"
@@ -200,3 +201,23 @@ package stanza
 //@ wire[C13] func:(*Error).UnmarshalXML#1.Text element urn:ietf:params:xml:ns:xmpp-stanzas text
 //@ wire[C13] func:(*Error).UnmarshalXML#3.Lang attr http://www.w3.org/XML/1998/namespace lang
 //@ wire[C13] func:(*Error).UnmarshalXML#3.Data chardata
+
+// C13: NewMessage is the inverse of Message.StartElement on id and type: the
+// id is the value of the last own id attribute, the type that of the last own
+// type attribute when it names one of the five defined types (normal when there
+// is none); attributes of foreign namespaces set neither.
+//@ spec msgType(v string) bool = v == "normal" || v == "chat" || v == "error" || v == "groupchat" || v == "headline"
+//@ func NewMessage
+//@   ensures[C13] result0.XMLName == start.Name
+//@   ensures[C13] result1 == nil ==> forall k int :: 0 <= k && k < len(start.Attr) && ownID(start.Attr[k], start.Name) && (forall j int :: k < j && j < len(start.Attr) ==> !ownID(start.Attr[j], start.Name)) ==> result0.ID == start.Attr[k].Value
+//@   ensures[C13] result1 == nil && (forall k int :: 0 <= k && k < len(start.Attr) ==> !ownID(start.Attr[k], start.Name)) ==> result0.ID == ""
+//@   ensures[C13] result1 == nil ==> forall k int :: 0 <= k && k < len(start.Attr) && ownType(start.Attr[k], start.Name) && msgType(start.Attr[k].Value) && (forall j int :: k < j && j < len(start.Attr) ==> !ownType(start.Attr[j], start.Name)) ==> string(result0.Type) == start.Attr[k].Value
+//@   ensures[C13] result1 == nil && (forall k int :: 0 <= k && k < len(start.Attr) ==> !ownType(start.Attr[k], start.Name)) ==> result0.Type == "normal"
+//@   callsite mellium.im/xmpp/jid.Parse#*
+//@     preserves start.Attr
+//@   loop 1
+//@     invariant[C13] rangeindex < len(start.Attr) && v.XMLName == start.Name
+//@     invariant[C13] forall k int :: 0 <= k && k <= rangeindex && ownID(start.Attr[k], start.Name) && (forall j int :: k < j && j <= rangeindex ==> !ownID(start.Attr[j], start.Name)) ==> v.ID == start.Attr[k].Value
+//@     invariant[C13] (forall k int :: 0 <= k && k <= rangeindex ==> !ownID(start.Attr[k], start.Name)) ==> v.ID == ""
+//@     invariant[C13] forall k int :: 0 <= k && k <= rangeindex && ownType(start.Attr[k], start.Name) && msgType(start.Attr[k].Value) && (forall j int :: k < j && j <= rangeindex ==> !ownType(start.Attr[j], start.Name)) ==> string(v.Type) == start.Attr[k].Value
+//@     invariant[C13] (forall k int :: 0 <= k && k <= rangeindex ==> !ownType(start.Attr[k], start.Name)) ==> v.Type == "normal"
